@@ -88,7 +88,7 @@ def rand_graph(rng, rm=None, n=None, p_inv=0.25, consts=None, concepts=None, bas
     canon = set()
 
     def add(s, r, t, is_edge):
-        c = (t, r[:-3], s) if (is_edge and rm.inverted(r) and not rm.noop) else (s, r, t)
+        c = (t, rm.invert_role(r), s) if (is_edge and rm.inverted(r) and not rm.noop) else (s, r, t)
         c2 = (c[0], c[1], _written(c[2]))
         c3 = (c[0], c[1], c[2])
         if c2 in canon or c3 in canon:
@@ -103,8 +103,8 @@ def rand_graph(rng, rm=None, n=None, p_inv=0.25, consts=None, concepts=None, bas
 
     def role():
         r = rng.choice(bases)
-        if rng.random() < p_inv and not rm.defines(r + '-of'):
-            r += '-of'
+        if rng.random() < p_inv and not rm.inverted(r) and not rm.defines(rm.invert_role(r)):
+            r = rm.invert_role(r)
         return r
 
     for i in range(1, n):
@@ -139,7 +139,7 @@ def content(triples, variables, rm, top=None):
     out = []
     for s, r, t in triples:
         if r != rm.concept_role and t in variables and rm.inverted(r) and not rm.noop:
-            s, r, t = t, r[:-3], s
+            s, r, t = t, rm.invert_role(r), s
         out.append((s, r, None if t is None else str(t)))
     out.sort(key=repr)
     return out
